@@ -240,7 +240,12 @@ func (p *Proof) UnmarshalJSON(data []byte) error {
 	const fpSize = 32
 	proofBytes := make([]byte, 8*fpSize)
 	for i := 0; i < 8; i++ {
-		copy(proofBytes[i*fpSize:(i+1)*fpSize], proofInts[i].Bytes())
+		coordBytes := proofInts[i].Bytes()
+		if len(coordBytes) > fpSize {
+			return fmt.Errorf("proof coordinate %d does not fit in %d bytes", i, fpSize)
+		}
+		// right-align: coordinates with leading zero bytes are shorter than fpSize
+		copy(proofBytes[(i+1)*fpSize-len(coordBytes):(i+1)*fpSize], coordBytes)
 	}
 
 	p.Proof = groth16.NewProof(ecc.BN254)
